@@ -563,7 +563,7 @@ Qed.
 (* ---- what the source-derived parameters must satisfy for the round trip to work *)
 Definition structural_names : list string := ["COMMENT"; "HISTORY"; "END"; "CONTINUE"; ""].
 Definition params_sound (p : params) : bool :=
-  (p_short_keylen p =? 8) && (p_short_vmax p <=? 68)%N && (p_card p =? 80)%N && (p_hier_overhead p =? 13)%N &&
+  (p_short_keylen p =? 8) && (p_short_vmax p =? 68)%N && (p_card p =? 80)%N && (p_hier_overhead p =? 13)%N &&
   match p_long_keymax p with Some m => m <=? 66 | None => false end &&
   p_long_blank_check p && p_quote_aware p && p_unquote_read p && p_printable_check p &&
   forallb (reserved p) structural_names.
@@ -590,7 +590,7 @@ Lemma accepts_short : forall p k v, params_sound p = true -> accepts p k v = tru
   reserved p k = false /\ forall_chars key_char_short k = true /\ forall_chars is_printable v = true /\ elen v <= 68.
 Proof.
   intros p k v PS A L. unfold params_sound in PS. split_andb PS.
-  apply Nat.eqb_eq in PS. apply N.leb_le in PS8.
+  apply Nat.eqb_eq in PS. apply N.eqb_eq in PS8.
   unfold accepts, check_key in A. destruct (reserved p k); [discriminate|].
   rewrite PS in A. destruct (String.length k <=? 8) eqn:E; [|apply Nat.leb_gt in E; lia].
   fold key_char_short in A. destruct (forall_chars key_char_short k); [|discriminate].
@@ -723,10 +723,10 @@ Proof.
   - unfold card_value. rewrite CM, PF, AE. apply (parse_value_text_Q 1).
 Qed.
 
-Lemma fit_value_Q : forall room v m, elen v + 2 <= room -> exists j, fit_value room (Q v m) = Q v j /\ j <= m.
+Lemma fit_value_Q : forall room v m, elen v + 2 <= room -> exists j, fit_value room (Q v m) = Q v j /\ j <= m /\ elen v + j + 2 <= room.
 Proof.
   intros room v m H. unfold fit_value. rewrite len_Q.
-  destruct (elen v + m + 2 <=? room) eqn:E; [exists m; split; [reflexivity | lia]|].
+  destruct (elen v + m + 2 <=? room) eqn:E; [apply Nat.leb_le in E; exists m; split; [reflexivity | lia]|].
   apply Nat.leb_gt in E. exists (room - 2 - elen v). split; [|lia].
   replace (room - 1) with (S (elen v + (room - 2 - elen v))) by lia.
   unfold Q. cbn [take]. rewrite <- (len_dbl v) at 1. rewrite take_app_more.
@@ -752,7 +752,8 @@ Qed.
 (* every accepted entry is written as one card that reads back as the same key and the value plus blanks *)
 Lemma entry_roundtrip : forall p k v, params_sound p = true -> accepts p k v = true ->
   exists c j, ffmkky k (ffs2c v) = Some c /\ sanitize c = c /\ is_end_card c = false /\ card_name c = k /\
-              card_value c = Some (Q v j) /\ reserved p k = false.
+              card_value c = Some (Q v j) /\ reserved p k = false /\
+              elen v + j <= (if String.length k <=? 8 then Nat.max (elen v) 8 else 67 - String.length k).
 Proof.
   intros p k v PS A.
   assert (ST : forallb (reserved p) structural_names = true).
@@ -788,6 +789,7 @@ Proof.
     + exact CN.
     + exact (CV CM).
     + exact R.
+    + destruct (String.length k <=? 8) eqn:E; [unfold j; lia | apply Nat.leb_gt in E; lia].
   - (* HIERARCH keyword *)
     destruct (accepts_long p k v PS A L) as (R & KC & L66 & F & La & HP & PV & EL).
     assert (NE : k <> EmptyString) by (intros E; subst; cbn in L; lia).
@@ -802,10 +804,10 @@ Proof.
     + (* "= " *)
       rewrite !len_app. change (String.length hier_prefix) with 9. change (String.length "= ") with 2.
       destruct (80 - (9 + String.length k + 2) <? 3) eqn:ER; [apply Nat.ltb_lt in ER; lia|].
-      destruct (fit_value_Q (80 - (9 + String.length k + 2)) v m) as (j & FV & JM); [lia|].
+      destruct (fit_value_Q (80 - (9 + String.length k + 2)) v m) as (j & FV & JM & JR); [lia|].
       rewrite FV. exists (lcard k 0 v j), j.
       destruct (long_card k v j 0 NE KC F La) as (EC & CM & CN & CV).
-      repeat split; try assumption.
+      repeat split; try assumption; try lia.
       * f_equal. unfold lcard. cbn [repeat_char]. rewrite append_empty_r, !app_assoc_s. reflexivity.
       * apply sanitize_id. unfold lcard. rewrite !forall_chars_app, PK. cbn [repeat_char forall_chars].
         rewrite printable_Q by exact PV. reflexivity.
@@ -813,13 +815,45 @@ Proof.
       apply Nat.ltb_ge in ES. rewrite len_Q in ES.
       rewrite !len_app. change (String.length hier_prefix) with 9. change (String.length " = ") with 3.
       destruct (80 - (9 + String.length k + 3) <? 3) eqn:ER; [apply Nat.ltb_lt in ER; lia|].
-      destruct (fit_value_Q (80 - (9 + String.length k + 3)) v m) as (j & FV & JM); [lia|].
+      destruct (fit_value_Q (80 - (9 + String.length k + 3)) v m) as (j & FV & JM & JR); [lia|].
       rewrite FV. exists (lcard k 1 v j), j.
       destruct (long_card k v j 1 NE KC F La) as (EC & CM & CN & CV).
-      repeat split; try assumption.
+      repeat split; try assumption; try lia.
       * f_equal. unfold lcard. cbn [repeat_char]. rewrite !app_assoc_s. reflexivity.
       * apply sanitize_id. unfold lcard. rewrite !forall_chars_app, PK. cbn [repeat_char forall_chars].
         rewrite printable_Q by exact PV. reflexivity.
+Qed.
+
+Lemma count_blanks_quote : forall j, count_chars is_quote (blanks j) = 0.
+Proof. induction j as [|j IH]; cbn; [reflexivity | exact IH]. Qed.
+Lemma count_app : forall f a b, count_chars f (a ++ b) = count_chars f a + count_chars f b.
+Proof. induction a as [|c r IH]; intros b; cbn; [reflexivity | rewrite IH; lia]. Qed.
+Lemma elen_app_blanks : forall v j, elen (v ++ blanks j) = elen v + j.
+Proof. intros v j. unfold elen. rewrite len_app, count_app, len_repeat, count_blanks_quote. lia. Qed.
+
+(* a value that grew by padding which still fits the card is accepted again *)
+Lemma accepts_pad : forall p k v j, params_sound p = true -> accepts p k v = true ->
+  elen v + j <= (if String.length k <=? 8 then Nat.max (elen v) 8 else 67 - String.length k) ->
+  accepts p k (v ++ blanks j) = true.
+Proof.
+  intros p k v j PS A B. unfold params_sound in PS. split_andb PS.
+  apply Nat.eqb_eq in PS. apply N.eqb_eq in PS8, PS7, PS6.
+  unfold accepts, check_key in *. destruct (reserved p k); [discriminate|].
+  rewrite PS in *. destruct (String.length k <=? 8) eqn:E.
+  - destruct (forall_chars (fun c : ascii => is_upper c || is_digit c) k); [|discriminate].
+    rewrite PS1 in *. cbn [andb] in *. rewrite forall_chars_app.
+    destruct (forall_chars is_printable v); [|discriminate]. rewrite forall_chars_repeat by reflexivity. cbn [negb andb] in *.
+    unfold enc_len in *. rewrite PS3 in *. fold (elen v) in A. fold (elen (v ++ blanks j)). rewrite elen_app_blanks.
+    apply negb_true_iff, N.ltb_ge in A. apply negb_true_iff, N.ltb_ge. lia.
+  - apply Nat.leb_gt in E. rewrite PS1 in *. destruct (long_scan true k); [discriminate|].
+    destruct (p_long_keymax p) as [m|]; [|discriminate]. apply Nat.leb_le in PS5.
+    destruct (m <? String.length k) eqn:EM; [discriminate|]. apply Nat.ltb_ge in EM.
+    destruct (p_long_blank_check p && _); [discriminate|].
+    cbn [andb] in *. rewrite forall_chars_app.
+    destruct (forall_chars is_printable v); [|discriminate]. rewrite forall_chars_repeat by reflexivity. cbn [negb andb] in *.
+    unfold enc_len, long_vmax in *. rewrite PS3, PS7, PS6 in *. fold (elen v) in A. fold (elen (v ++ blanks j)). rewrite elen_app_blanks.
+    destruct (13 + N.of_nat (String.length k) <=? 80)%N eqn:EU; [|apply N.leb_gt in EU; lia]. apply N.leb_le in EU.
+    apply negb_true_iff, N.ltb_ge in A. apply negb_true_iff, N.ltb_ge. lia.
 Qed.
 
 (* ---- the whole header *)
@@ -843,24 +877,26 @@ Proof.
 Qed.
 
 Lemma cards_roundtrip : forall p s, params_sound p = true -> all_accepted p s ->
-  exists cs, write_cards s = Some cs /\ same_up_to_blanks s (read_cards p cs).
+  exists cs, write_cards s = Some cs /\ same_up_to_blanks s (read_cards p cs) /\ all_accepted p (read_cards p cs).
 Proof.
   intros p s PS; induction s as [|[k v] r IH]; intros AA.
-  - exists []. split; [reflexivity | constructor].
-  - destruct IH as (cs & W & Sm); [intros k' v' H; apply AA; now right|].
-    destruct (entry_roundtrip p k v PS (AA k v (or_introl eq_refl))) as (c & j & MK & SA & EC & CN & CV & R).
+  - exists []. split; [reflexivity|]. split; [constructor | intros k v []].
+  - destruct IH as (cs & W & Sm & AC); [intros k' v' H; apply AA; now right|].
+    pose proof (AA k v (or_introl eq_refl)) as AK.
+    destruct (entry_roundtrip p k v PS AK) as (c & j & MK & SA & EC & CN & CV & R & JB).
     exists (c :: cs). cbn [write_cards]. rewrite MK, W, SA. split; [reflexivity|].
     cbn [read_cards]. unfold is_end_card in EC. rewrite EC, CV, CN, R.
-    constructor; [|exact Sm]. cbn [fst snd]. split; [reflexivity|].
     assert (U : p_unquote_read p = true) by (unfold params_sound in PS; split_andb PS; assumption).
-    now rewrite reader_value_Q, rstrip_app_blanks.
+    rewrite reader_value_Q by exact U. split.
+    + constructor; [|exact Sm]. cbn [fst snd]. split; [reflexivity|]. now rewrite rstrip_app_blanks.
+    + intros k2 v2 [H|H]; [inversion H; subst; now apply accepts_pad | now apply AC].
 Qed.
 
 Lemma survives_roundtrip : forall p prelude s, params_sound p = true -> prelude_ok p prelude = true -> all_accepted p s ->
-  exists s', roundtrip p prelude s = Some s' /\ same_up_to_blanks s s'.
+  exists s', roundtrip p prelude s = Some s' /\ same_up_to_blanks s s' /\ all_accepted p s'.
 Proof.
-  intros p prelude s PS PO AA. destruct (cards_roundtrip p s PS AA) as (cs & W & Sm).
-  exists (read_cards p cs). unfold roundtrip. rewrite W, read_prelude by exact PO. now split.
+  intros p prelude s PS PO AA. destruct (cards_roundtrip p s PS AA) as (cs & W & Sm & AC).
+  exists (read_cards p cs). unfold roundtrip. rewrite W, read_prelude by exact PO. now repeat split.
 Qed.
 
 Lemma same_keys : forall s s', same_up_to_blanks s s' -> map fst s' = map fst s.
